@@ -19,6 +19,17 @@ theorem String.compare_eq_iff (x y : String) : compare x y = .eq ↔ x = y :=
 theorem Int.compare_eq_iff' (x y : Int) : compare x y = .eq ↔ x = y :=
   Std.LawfulEqCmp.compare_eq_iff_eq
 
+theorem Int.compare_lt_iff' (x y : Int) : compare x y = .lt ↔ x < y := by
+  rcases Int.lt_trichotomy x y with h | h | h
+  · simp [compare, compareOfLessAndEq, h]
+  · subst h; simp [compare, compareOfLessAndEq]
+  · have h1 : ¬ x < y := by omega
+    have h2 : ¬ x = y := by omega
+    simp [compare, compareOfLessAndEq, h1, h2]
+
+theorem String.compare_lt_trans (x y z : String) (h1 : compare x y = .lt) (h2 : compare y z = .lt) :
+    compare x z = .lt := Std.TransCmp.lt_trans h1 h2
+
 namespace Dec
 
 theorem align_swap (a b : Dec) :
@@ -34,6 +45,40 @@ theorem beq_comm (a b : Dec) : beq a b = beq b a := by
   simp only [beq, cmp_swap a b]
   cases cmp a b <;> rfl
 
+/-- Numeric equality is equality of the two scaled coefficients at ANY common scale `s` below both exponents
+(`align` uses the smaller exponent). -/
+theorem scaled_eq_iff (a b : Dec) (s : Int) (hs : s ≤ min a.exp b.exp) :
+    a.scoeff * (10 : Int) ^ (a.exp - s).toNat = b.scoeff * (10 : Int) ^ (b.exp - s).toNat ↔ cmp a b = .eq := by
+  simp only [cmp, align]
+  rw [Int.compare_eq_iff']
+  have ha : (a.exp - s).toNat = (a.exp - min a.exp b.exp).toNat + (min a.exp b.exp - s).toNat := by omega
+  have hb : (b.exp - s).toNat = (b.exp - min a.exp b.exp).toNat + (min a.exp b.exp - s).toNat := by omega
+  rw [ha, hb, Int.pow_add, Int.pow_add, ← Int.mul_assoc, ← Int.mul_assoc]
+  constructor
+  · exact Int.eq_of_mul_eq_mul_right (Int.pow_ne_zero (by decide))
+  · intro h; rw [h]
+
+theorem cmp_eq_refl (a : Dec) : cmp a a = .eq :=
+  (scaled_eq_iff a a (min a.exp a.exp) (Int.le_refl _)).mp rfl
+
+theorem cmp_eq_trans (a b c : Dec) (h1 : cmp a b = .eq) (h2 : cmp b c = .eq) : cmp a c = .eq := by
+  have e1 := (scaled_eq_iff a b (min a.exp (min b.exp c.exp)) (by omega)).mpr h1
+  have e2 := (scaled_eq_iff b c (min a.exp (min b.exp c.exp)) (by omega)).mpr h2
+  exact (scaled_eq_iff a c (min a.exp (min b.exp c.exp)) (by omega)).mp (e1.trans e2)
+
+theorem scaled_lt_iff (a b : Dec) (s : Int) (hs : s ≤ min a.exp b.exp) :
+    a.scoeff * (10 : Int) ^ (a.exp - s).toNat < b.scoeff * (10 : Int) ^ (b.exp - s).toNat ↔ cmp a b = .lt := by
+  simp only [cmp, align]
+  rw [Int.compare_lt_iff']
+  have ha : (a.exp - s).toNat = (a.exp - min a.exp b.exp).toNat + (min a.exp b.exp - s).toNat := by omega
+  have hb : (b.exp - s).toNat = (b.exp - min a.exp b.exp).toNat + (min a.exp b.exp - s).toNat := by omega
+  rw [ha, hb, Int.pow_add, Int.pow_add, ← Int.mul_assoc, ← Int.mul_assoc]
+  exact Int.mul_lt_mul_right (Int.pow_pos (by decide))
+
+theorem cmp_lt_trans (a b c : Dec) (h1 : cmp a b = .lt) (h2 : cmp b c = .lt) : cmp a c = .lt := by
+  have e1 := (scaled_lt_iff a b (min a.exp (min b.exp c.exp)) (by omega)).mpr h1
+  have e2 := (scaled_lt_iff b c (min a.exp (min b.exp c.exp)) (by omega)).mpr h2
+  exact (scaled_lt_iff a c (min a.exp (min b.exp c.exp)) (by omega)).mp (Int.lt_trans e1 e2)
 end Dec
 
 /-! ## dates -/
@@ -201,6 +246,52 @@ theorem keys_eq_of_sorted {ks ls : List String} (hk : ks.Pairwise (· < ·)) (hl
   have sp : List.Subperm ks ls := List.subperm_of_subset (pairwise_lt_nodup hk) sub
   have pm : List.Perm ks ls := sp.perm_of_length_le (by omega)
   exact List.Perm.eq_of_pairwise (fun a b _ _ h1 h2 => absurd h2 (String.lt_asymm h1)) hk hl pm
+
+/-! ## `<`: transitivity helpers -/
+
+theorem datePartialCmp_lt_iff (y1 : Int) (m1 d1 : Nat) (y2 : Int) (m2 d2 : Nat) :
+    datePartialCmp y1 m1 d1 y2 m2 d2 = some .lt ↔
+      (y1 < y2 ∨ (y1 = y2 ∧ (m1 < m2 ∨ (m1 = m2 ∧ d1 < d2)))) := by
+  unfold datePartialCmp dateCompare? dateTupleCmp
+  by_cases a1 : y1 < y2
+  · have : ¬ (y1 = y2 ∧ m1 = m2 ∧ d1 = d2) := by omega
+    simp [a1, this]
+  · by_cases a2 : y1 > y2
+    · have : ¬ (y1 = y2 ∧ m1 = m2 ∧ d1 = d2) := by omega
+      simp [a1, a2, this]; omega
+    · have e : y1 = y2 := by omega
+      subst e
+      by_cases b1 : m1 < m2
+      · have : ¬ (m1 = m2 ∧ d1 = d2) := by omega
+        simp [b1, this]
+      · by_cases b2 : m1 > m2
+        · have : ¬ (m1 = m2 ∧ d1 = d2) := by omega
+          simp [b1, b2, this]; omega
+        · have e : m1 = m2 := by omega
+          subst e
+          by_cases c1 : d1 < d2
+          · have : ¬ (d1 = d2) := by omega
+            simp [c1, this]
+          · by_cases c2 : d1 > d2
+            · have : ¬ (d1 = d2) := by omega
+              simp [c1, c2, this]
+            · have e : d1 = d2 := by omega
+              subst e
+              simp
+
+theorem instantLt_trans (a b c : Instant)
+    (h1 : (instantCompare? a b).map (· == Ordering.lt) = some true)
+    (h2 : (instantCompare? b c).map (· == Ordering.lt) = some true) :
+    (instantCompare? a c).map (· == Ordering.lt) = some true := by
+  unfold instantCompare? at *
+  cases ha : a.key <;> cases hb : b.key <;> cases hc : c.key <;>
+    simp [ha, hb, hc, Int.compare_lt_iff'] at h1 h2 ⊢
+  omega
+
+theorem optBool_true_iff (o : Option Bool) : optBool o = .bool true ↔ o = some true := by
+  cases o with
+  | none => simp [optBool]
+  | some b => cases b <;> simp [optBool]
 
 end Value
 end Dmn
